@@ -337,7 +337,7 @@ class Filer(hioing.Mixin):
 
             if clean and os.path.exists(path):
                 if os.path.isfile(path):
-                    if filed:
+                    if filed or extensioned:
                         os.remove(path)  # rm only file not dir
                     else:
                         head, tail = os.path.split(path)
